@@ -39,6 +39,22 @@ CHECKS = {
          "Every distinct document reached (strings in maps, lists, nested objects, conflicts, tombstones) is saved and loaded with ConvertToText; slot-by-slot: slots with visible strings hold exactly one text with the highest-id string, all other slots unchanged with the same ids, no visible string remains, heads unchanged when the reference finds no visible string anywhere.",
          "No claim about unreachable objects; Table outside the alphabet.",
          "DESIGN.md §4 C40", H),
+ "C04": ("model_checking", "explicit-state BFS over real AutoCommit replicas with a replica-level alphabet; per-transition metadata oracle",
+         "All programs up to the depth bound over {edit+commit, empty commit, merge, fork, set_actor, isolate(H) for every consistent cut, integrate, save+load} on 2-3 replicas; every created change is checked for seq, start_op and deps against the harness's own bookkeeping; heads = maximal changes in every state.",
+         "Depth 6/5 (quick), 8/7 (thorough). empty_change is only driven outside isolation (documented to use all current heads).",
+         "DESIGN.md §4 C04", "mc-replicas"),
+ "C05": ("model_checking", "explicit-state BFS for DAG shapes + exhaustive permutations and prefixes of deliveries through three ingestion paths",
+         "For every distinct change set the explorer reaches (<=4 quick / <=6 thorough new changes over 2-3 actors with merges): every permutation, delivered one at a time via apply_changes, load_incremental and a sync message; after every prefix the visible state, applied set and get_missing_deps (for [] and every single hash incl. an unknown one) equal the harness's closure computation.",
+         "Closure and readiness computed by the harness from Change::deps().",
+         "DESIGN.md §4 C05", H),
+ "C06": ("model_checking", "explicit-state BFS over shared-actor replicas + exhaustive single-bit/truncation fault menu + rejected-call menu",
+         "Every delivery/merge that returns Err in the shared-actor worlds, every single-bit corruption and truncation of incremental data, and a menu of rejected transaction calls must leave reads, pending queue (retained-orphan bytes, missing deps), pending ops and later behaviour unchanged. One known finding (queue pruned on DuplicateSeqNumber, pinned by the repo's own test) is listed in KNOWN_FINDINGS.txt.",
+         "Snapshot = public reads + save_with_options{retain_orphans} bytes + get_missing_deps.",
+         "DESIGN.md §4 C06", "mc-replicas"),
+ "C38": ("model_checking", "explicit-state BFS over three replicas two of which share an actor id; all delivery orders and paths",
+         "All programs up to depth 6 (quick) / 7 (thorough): local commits on both holders of the shared actor, every delivery of every change to every replica via apply_changes / load_incremental / sync message / reversed batches / merge, save+load; in every state (actor,seq) pairs are unique among applied and queued changes and load(save) round-trips; a local commit purges conflicting queued branches.",
+         "Queue read back by parsing retained-orphan chunks.",
+         "DESIGN.md §4 C38", "mc-replicas"),
  "C20": ("model_checking", "explicit-state BFS of the real sync protocol (2 peers, encoded channels), fault-injected Bloom false positives, fair-completion convergence oracle in every state",
          "All interleavings of generate / deliver / local edit / injected Bloom false positive for two real peers from six start worlds, frontier run to exhaustion under edit and fault budgets; from every reachable state a fair completion must go quiet within 10 rounds with equal heads and reads, and stay quiet.",
          "Hook: thread-local false-positive plan in BloomFilter::contains_hash (only false->true, non-empty filters). Budgets: 1 edit/peer + 1 false positive (quick), 2+2 (thorough).",
@@ -81,6 +97,8 @@ def main():
         "engines": [
             {"name": "mc-history", "path": "/verif/amc/src/explore.rs", "serves_properties": [p for p in ALL if p in CHECKS and CHECKS[p][5] == "mc-history"],
              "kind_free_text": "level-synchronous parallel BFS over worlds of real Automerge replicas; canonical key = heads+actor+budgets; confluence check on key merges; per-state and per-transition oracles"},
+            {"name": "mc-replicas", "path": "/verif/amc/src/props/c04.rs, /verif/amc/src/props/c38.rs", "serves_properties": [p for p in ALL if p in CHECKS and CHECKS[p][5] == "mc-replicas"],
+             "kind_free_text": "explicit-state BFS over replica-level actions (commit, merge, fork, set_actor, isolate, deliver, save/load)"},
             {"name": "mc-sync", "path": "/verif/amc/src/syncmc.rs", "serves_properties": [p for p in ALL if p in CHECKS and CHECKS[p][5] == "mc-sync"],
              "kind_free_text": "explicit-state BFS over n real peers, per-link sync::State, FIFO channels of encoded messages, fault budgets (false positives, drops, cuts, restores, read-only toggles); fair-completion oracle from every state"},
         ],
